@@ -173,8 +173,15 @@ def _repeat_diff(r0, r1, order) -> Optional[str]:
     multiset of rows (positional, so it also works for results with duplicate column names) and, after
     a final order_rows, the same sequence of order keys.  With a limit only the keys are compared when
     the multisets differ (rows tied at the cut may be chosen differently)."""
-    if [str(c) for c in r0[1]] != [str(c) for c in r1[1]]:
-        return "repeat: columns of the second evaluation differ: %r vs %r" % (r0[1], r1[1])
+    c0, c1 = [str(c) for c in r0[1]], [str(c) for c in r1[1]]
+    if c0 != c1:
+        # column ORDER is not defined by the library (except after select_columns): align by name when the
+        # names are unique, otherwise the lists must agree
+        if len(set(c0)) == len(c0) and sorted(c0) == sorted(c1):
+            idx = [c1.index(c) for c in c0]
+            r1 = (r1[0], list(r0[1]), [tuple(row[i] for i in idx) for row in r1[2]])
+        else:
+            return "repeat: columns of the second evaluation differ: %r vs %r" % (r0[1], r1[1])
     if len(r0[2]) != len(r1[2]):
         return "repeat: row count of the second evaluation differs: %d vs %d" % (len(r0[2]), len(r1[2]))
     same_rows = C._match_multisets(list(r0[2]), list(r1[2]), 1e-8, None) is None
@@ -200,7 +207,10 @@ def eval_case(spec: Dict[str, Any], data: Dict[str, Any], index_kind: str = "def
     # mid-chain limit cutting through ties) may legitimately differ between two evaluations: only the
     # non-mutation half of the contract is checked for it
     skip, _info = C.data_preconditions(spec, C.PrefixCache(spec, data), backends=("pandas", "polars"))
-    determined = skip in (None, "records-precondition")
+    # (also omitted for inputs that violate convert_records' keying / complete-blocks requirement: what the
+    # executors return for them depends on the -- unspecified -- row order of the intermediate table, see the
+    # C08 finding blocks_to_rowrecs:block-key-values-missing-or-unknown-in-data)
+    determined = skip is None
     order = C.last_order_step(spec)
     for backend in ("pandas", "polars", "polars-lazy"):
         for entry in ENTRY_POINTS:
